@@ -161,7 +161,7 @@ EVENTS = [
     (ev(test_id=None, file_name="g", file_bytes=b"", timestamp=None), None, False),
     (ev(test_status="exists", test_tags=("y",)), "frozenset", False),
     (ev(test_status="success", test_tags=("t",)), "set", "all"),
-    (ev(test_status="unknown", test_tags=()), "frozenset", False),
+    (ev(test_status="unknown", test_tags=(), eof=True, mime_type="text/plain"), "frozenset", False),  # (eof and mime type without a file: still the caller's event)
     (ev(test_status="inprogress", test_tags=("t",), timestamp=None), "set", False),
     (ev(test_status="success", route_code=""), None, False),  # an empty route code is not "no route code"
     (ev(test_status="inprogress", timestamp=T_FUTURE), None, False),  # a supplied timestamp ahead of the local clock
